@@ -4,14 +4,14 @@
 use std::io::{BufRead, Write};
 use std::panic;
 
-mod fam_leaf;
+mod fams;
 mod util;
 
 fn dispatch(kind: &str, args: &[&str]) -> String {
-    if let Some(r) = fam_leaf::dispatch(kind, args) {
-        return r;
+    match fams::dispatch(kind, args) {
+        Some(r) => r,
+        None => "NOKIND".to_string(),
     }
-    "NOKIND".to_string()
 }
 
 fn main() {
